@@ -1269,7 +1269,9 @@ class TorProcessProtocol(protocol.ProcessProtocol):
         """
 
         if self.stdout:
-            self.stdout.write(data.decode('ascii'))
+            # Tor prints file names as they are (not only ASCII): that
+            # must not keep us from seeing the listener line below
+            self.stdout.write(data.decode('utf-8', 'replace'))
 
         # minor hack: we can't try this in connectionMade because
         # that's when the process first starts up so Tor hasn't
